@@ -78,10 +78,12 @@ func checkHistory(hh history) (msg string, unspec bool) {
 	real := map[string]map[string]interface{}{
 		"A": {"x": 1, "k": 10},
 		"B": {"x": 2, "$a": 100},
+		"E": {}, // an empty (but not nil) caller map: still the caller's map
 	}
 	model := map[string]map[string]mv{
 		"A": {"x": mvInt(1), "k": mvInt(10)},
 		"B": {"x": mvInt(2), "$a": mvInt(100)},
+		"E": {},
 	}
 	cur := "" // "", "A", "B", "own"
 	aux := map[string]mv{}
@@ -154,7 +156,7 @@ func checkHistory(hh history) (msg string, unspec bool) {
 			}
 		}
 		// after every step the caller's maps equal the model's
-		for _, name := range []string{"A", "B"} {
+		for _, name := range []string{"A", "B", "E"} {
 			if len(real[name]) != len(model[name]) {
 				return fmt.Sprintf("%s: caller map %s has keys %v, the model %v", where, name, keysOf(real[name]), model[name]), false
 			}
@@ -194,7 +196,7 @@ var c20Pool = []string{"$a + 1", "[$a + 1, $a]", "[$a + $a, $a, $b]", "$a", "$a 
 	"$a = 9007199254740993", "$b = $a + 1, [$a, $b, $a == $b]", "$a = 1234567890123456789, $a + 0", "[$a == 9007199254740993, $a == 9007199254740992]"}
 
 var c20Alphabet = []runnerOp{
-	{Op: "setthis", Map: "A"}, {Op: "setthis", Map: "B"}, {Op: "setthis", Map: ""},
+	{Op: "setthis", Map: "A"}, {Op: "setthis", Map: "B"}, {Op: "setthis", Map: ""}, {Op: "setthis", Map: "E"},
 	{Op: "setvalue", Key: "x", Val: 50}, {Op: "setvalue", Key: "$a", Val: 60},
 	{Op: "resolve", F: "$a = x + 1"}, {Op: "resolve", F: "[x, $a, k]"}, {Op: "resolve", F: "$a = 5"}, {Op: "resolve", F: "this.x"}, {Op: "resolve", F: "[$a + 1, $a]"},
 	{Op: "set", Key: "x", Val: 99}, {Op: "get", Key: "x"}, {Op: "get", Key: "$a"}, {Op: "set", Key: "$a", Val: 98},
@@ -250,7 +252,7 @@ func historyNontrivial(hh history) bool {
 // TestC20Exhaustive: all sequences of up to k actions over the alphabet.
 func TestC20Exhaustive(t *testing.T) {
 	k := h.N(4, 6)
-	run := h.Begin("C20", "exhaustive", fmt.Sprintf("bounded-exhaustive: every history of 1..%d operations over a %d-operation alphabet {SetThis(A|B|nil), SetThisValue(x|$a), Resolve of 4 pool formulas that read and assign locals and fields, Set(x|$a), Get(x|$a)} on one runner, with keys shared between the two caller maps and the auxiliary store; oracle: a model with 'this' as a reference to caller map A, B, a runner-created map or nothing, and a separate auxiliary map - every Resolve result and every Get must match, and the caller maps must equal the model's after every step; non-trivial: a local surviving to a later evaluation, a map replacement that hides or restores a local, SetThisValue on a map-less runner, or a key present in both stores", k, len(c20Alphabet)))
+	run := h.Begin("C20", "exhaustive", fmt.Sprintf("bounded-exhaustive: every history of 1..%d operations over a %d-operation alphabet {SetThis(A|B|an empty map|nil), SetThisValue(x|$a), Resolve of 4 pool formulas that read and assign locals and fields, Set(x|$a), Get(x|$a)} on one runner, with keys shared between the two caller maps and the auxiliary store; oracle: a model with 'this' as a reference to caller map A, B, a runner-created map or nothing, and a separate auxiliary map - every Resolve result and every Get must match, and the caller maps must equal the model's after every step; non-trivial: a local surviving to a later evaluation, a map replacement that hides or restores a local, SetThisValue on a map-less runner, or a key present in both stores", k, len(c20Alphabet)))
 	defer run.End(t)
 	enumSeq(len(c20Alphabet), k, func(seq []int) {
 		if run.NViolations() >= 3 {
@@ -298,7 +300,7 @@ func TestC20Random(t *testing.T) {
 			}
 			switch rapid.IntRange(0, 7).Draw(rt, "op") {
 			case 0:
-				hh.Ops = append(hh.Ops, runnerOp{Op: "setthis", Map: rapid.SampledFrom([]string{"A", "B", ""}).Draw(rt, "map")})
+				hh.Ops = append(hh.Ops, runnerOp{Op: "setthis", Map: rapid.SampledFrom([]string{"A", "B", "", "E", "E"}).Draw(rt, "map")})
 			case 1:
 				hh.Ops = append(hh.Ops, runnerOp{Op: "setvalue", Key: key, Val: val, Str: sval})
 			case 2, 3, 4:
